@@ -63,7 +63,7 @@ fn small_ws(rng: &mut Rng, imports: bool) -> WsSpec {
 }
 
 /// A new version for `file` derived from the spec by an edit that matters to the index.
-fn next_version(rng: &mut Rng, spec: &WsSpec, file: &str, current: &str, last_valid: &str, names: &[String], prop: &str) -> String {
+pub fn next_version(rng: &mut Rng, spec: &WsSpec, file: &str, current: &str, last_valid: &str, names: &[String], prop: &str) -> String {
     let Some(pf) = spec.file(file) else { return current.to_string() };
     let is_test = pf.items.iter().any(|i| matches!(i, Item::Test(_)));
     let imports: Vec<Item> = pf.items.iter().filter(|i| matches!(i, Item::Star { .. } | Item::Import { .. } | Item::Plugins { .. })).cloned().collect();
